@@ -369,8 +369,35 @@ def r4(ctx, R):
     c10r1(ctx, R, rule="C07.R4", entries={gd: ["(diagnostics)"]})
 
 
+def r5(ctx, R):
+    R.rule("C07.R5", "look-ups that decide a diagnostic search the whole host chain: the masking and type checks call the resolver on the parent scope without restricting it to that scope", floor=1, confirmed=2)
+    fis = ctx.m.fn("find_in_scope")
+    producers = {f.qual for f, _ in [(ff, c) for ff, c, *_ in constructions(ctx)]} if False else None
+    n = 0
+    for f in ctx.m.funcs.values():
+        if f.rel.endswith("debug.py"):
+            continue
+        builds = any(isinstance(c.func, ast.Name) and c.func.id == "Diagnostic" for c in calls_in(f.node))
+        if not builds:
+            continue
+        for c in calls_in(f.node):
+            if ctx.m.enclosing_func(c) is not f or fis.qual not in ctx.r.resolve_call(f, c)[1]:
+                continue
+            n += 1
+            lo = next((kw.value for kw in c.keywords if kw.arg == "local_only"), c.args[4] if len(c.args) > 4 else None)
+            st = ctx.m.enclosing_stmt(c)
+            k = key(f, st)[:90]
+            if lo is not None and not (isinstance(lo, ast.Constant) and lo.value is False):
+                R.violation("C07.R5", f.short, k, loc(f, c), "the look-up behind this diagnostic is restricted to one scope (local_only): a variable declared further out than the direct parent (module variable masked in an internal procedure, BLOCK inside DO) is not found and the diagnostic is silently dropped")
+            else:
+                R.ok("C07.R5", f.short, k, loc(f, c), "full host chain searched")
+    if n == 0:
+        raise AnalysisError("no resolver call in diagnostic-producing code")
+
+
 def run(ctx, R):
     r1(ctx, R)
     r2(ctx, R)
     r3(ctx, R)
     r4(ctx, R)
+    r5(ctx, R)
